@@ -194,7 +194,7 @@ def run(tier, seed, only=None):
                 run_obligations(rep, "%s[%s,n=%d]" % (cls, cn, npm), obs, timeout, family=lambda ob, cls=cls: "%s: %s" % (cls, ob.meta["family"]),
                                 replay=replay_factory(sc, ins, rr))
         # ---------------- TotalLoads
-        for (lab, over) in (("plain", {}), ("all sources", {"struct_weight_relief": True, "distributed_fuel_weight": True, "n_point_masses": 1})):
+        for (lab, over) in (("plain", {}), ("all sources (switches as NumPy booleans)", {"struct_weight_relief": np.True_, "distributed_fuel_weight": np.True_, "n_point_masses": 1})):
             st = dict(s, **over)
             sc = SymComp("structures.total_loads", "TotalLoads", surface=st)
             rep.encode(type(sc.comp))
